@@ -575,7 +575,8 @@ const maxCharPadding = 10000
 
 func filterCenter(in *Value, param *Value) (*Value, *Error) {
 	width := param.Integer()
-	slen := in.Len()
+	// the length of the text that is padded (Len() of a number is 0)
+	slen := utf8.RuneCountInString(in.String())
 	if width <= slen {
 		return in, nil
 	}
@@ -679,7 +680,8 @@ func filterLinenumbers(in *Value, param *Value) (*Value, *Error) {
 }
 
 func filterLjust(in *Value, param *Value) (*Value, *Error) {
-	times := param.Integer() - in.Len()
+	// the length of the text that is padded (Len() of a number is 0)
+	times := param.Integer() - utf8.RuneCountInString(in.String())
 	if times < 0 {
 		times = 0
 	}
